@@ -1,5 +1,543 @@
 package main
 
-func cmdCheck(args []string) int    { return 2 }
-func cmdReplay(args []string) int   { return 2 }
-func cmdSelftest(args []string) int { return 2 }
+// `govc check --property Cxx --tier quick|thorough`: decide one property.
+
+import (
+	"encoding/json"
+	"flag"
+	"fmt"
+	"os"
+	"path/filepath"
+	"sort"
+	"strconv"
+	"strings"
+	"time"
+)
+
+type PropCfg struct {
+	Packages    []string `json:"packages"`
+	Assumptions []string `json:"assumptions"`
+	Trusted     []string `json:"trusted"`
+	Residual    []string `json:"residual"`
+	Bounded     []string `json:"bounded,omitempty"`
+}
+
+type KnownFinding struct {
+	Property   string `json:"property"`
+	Obligation string `json:"obligation"` // Func#kind:label
+	Pin        string `json:"pin"`        // Func#asis:label (must hold while the obligation fails)
+	What       string `json:"what"`
+	Witness    string `json:"witness"` // replay test file (relative to /verif) reproducing the defect on the real code
+	Status     string `json:"status"`  // open | fixed
+	Commit     string `json:"commit,omitempty"`
+}
+
+type oblResult struct {
+	Name    string   `json:"name"`
+	Sites   int      `json:"sites"`
+	Proved  int      `json:"proved"`
+	Status  string   `json:"status"`
+	Solvers []string `json:"solvers"`
+	Secs    float64  `json:"secs"`
+	Class   string   `json:"class,omitempty"`
+	Text    string   `json:"text,omitempty"`
+	verdicts []*Verdict
+	fc       *FnCtx
+}
+
+func loadJSON(path string, v interface{}) error {
+	data, err := os.ReadFile(path)
+	if err != nil {
+		return err
+	}
+	return json.Unmarshal(data, v)
+}
+
+func cmdCheck(args []string) int {
+	fs := flag.NewFlagSet("check", flag.ExitOnError)
+	repo := fs.String("repo", envOr("GOVC_REPO", "/repo"), "repository")
+	verif := fs.String("verif", envOr("GOVC_VERIF", "/verif"), "verif dir")
+	prop := fs.String("property", "", "property id")
+	tier := fs.String("tier", envOr("VERIF_TIER", "quick"), "quick|thorough")
+	noEvidence := fs.Bool("no-evidence", false, "do not write the evidence file (selftest)")
+	record := fs.Bool("record", false, "record the generated obligation names and baseline times in contracts/expected_obligations.json")
+	quiet := fs.Bool("q", false, "less output")
+	fs.Parse(args)
+	t0 := time.Now()
+	seed, _ := strconv.Atoi(envOr("VERIF_SEED", "0"))
+	cfgs := map[string]*PropCfg{}
+	if err := loadJSON(filepath.Join(*verif, "contracts", "properties.json"), &cfgs); err != nil {
+		fmt.Println("cannot read properties.json:", err)
+		return 2
+	}
+	cfg := cfgs[*prop]
+	if cfg == nil {
+		fmt.Println("unknown property", *prop)
+		return 2
+	}
+	res := runProperty(*repo, *verif, *prop, cfg, *tier, nil, !*quiet)
+	res.WallS = time.Since(t0).Seconds()
+	res.Seed = seed
+	if *record {
+		exp := map[string]map[string]float64{}
+		loadJSON(filepath.Join(*verif, "contracts", "expected_obligations.json"), &exp)
+		exp[*prop] = map[string]float64{}
+		for _, r := range res.Obls {
+			if r.Status == "proved" {
+				mx := 0.0
+				for _, v := range r.verdicts {
+					if v.Secs > mx {
+						mx = v.Secs
+					}
+				}
+				exp[*prop][r.Name] = round3(mx)
+			}
+		}
+		writeJSON(filepath.Join(*verif, "contracts", "expected_obligations.json"), exp)
+	}
+	code := res.report(*verif, *prop, cfg, *tier, !*noEvidence)
+	return code
+}
+
+type PropResult struct {
+	Prop       string
+	Tier       string
+	Seed       int
+	Obls       []*oblResult
+	Errors     []string
+	Funcs      []string
+	Trusted    []string
+	Axioms     []string
+	Abstract   []string
+	Vacuous    []string
+	Missing    []string
+	WallS      float64
+	SolverSecs float64
+	Queries    int
+	Covers     int
+	LoadErr    string
+}
+
+// runProperty loads the tree and discharges every obligation of the property. overlay: mutated sources (selftest).
+func runProperty(repo, verif, prop string, cfg *PropCfg, tier string, overlay map[string][]byte, verbose bool) *PropResult {
+	res := &PropResult{Prop: prop, Tier: tier}
+	e := NewEngine(repo, verif)
+	e.Overlay = overlay
+	if err := e.LoadSpecs(); err != nil {
+		res.LoadErr = "contract files: " + err.Error()
+		return res
+	}
+	if err := e.Load(cfg.Packages); err != nil {
+		res.LoadErr = "loading /repo: " + err.Error()
+		return res
+	}
+	work := filepath.Join(verif, "work", prop)
+	if overlay != nil {
+		work = filepath.Join(verif, "work", prop+"_selftest")
+	}
+	os.RemoveAll(work)
+	os.MkdirAll(work, 0o755)
+	timeout := 20
+	all := false
+	if tier == "thorough" {
+		timeout = 60
+		all = true
+	}
+	exp := map[string]map[string]float64{}
+	loadJSON(filepath.Join(verif, "contracts", "expected_obligations.json"), &exp)
+	timeoutFor := func(o *Obl) int {
+		if tier == "thorough" {
+			return timeout
+		}
+		if overlay != nil {
+			// selftest: short timeouts
+			if b, ok := exp[prop][o.Name()]; ok {
+				return maxInt(4, int(b*20)+1)
+			}
+			return 6
+		}
+		if b, ok := exp[prop][o.Name()]; ok {
+			return maxInt(6, int(b*50)+1)
+		}
+		return timeout
+	}
+	hasProp := func(ps []string) bool {
+		for _, p := range ps {
+			if p == prop {
+				return true
+			}
+		}
+		return false
+	}
+	var fcs []*FnCtx
+	for _, k := range e.Spec.Order {
+		c := e.Spec.Funcs[k]
+		if !hasProp(c.Props) {
+			continue
+		}
+		if c.Trusted {
+			what := k
+			switch {
+			case c.IsIface:
+				what = "interface contract, assumed for every implementation: " + k
+			case c.TrustReason != "":
+				what = "contract of a /repo function assumed, body NOT verified (" + c.TrustReason + "): " + k
+			}
+			res.Trusted = append(res.Trusted, what)
+			continue
+		}
+		res.Funcs = append(res.Funcs, k)
+		fc := e.VerifyFunc(k, false)
+		fcs = append(fcs, fc)
+	}
+	for _, l := range e.Spec.Lemmas {
+		if !hasProp(l.Props) {
+			continue
+		}
+		if l.Axiom {
+			res.Axioms = append(res.Axioms, l.Label+": "+l.Text)
+			continue
+		}
+		fcs = append(fcs, e.VerifyLemma(l, false))
+	}
+	// trusted contracts actually used: every extern contract (they are assumed wherever called)
+	for _, k := range e.Spec.Order {
+		if c := e.Spec.Funcs[k]; c.Trusted && !hasProp(c.Props) {
+			// listed only if referenced by a verified function of this property: approximated by package load
+			_ = c
+		}
+	}
+	type job struct {
+		fc     *FnCtx
+		o      *Obl
+		script string
+		v      *Verdict
+	}
+	var jobs []*job
+	var covers []*job
+	for _, fc := range fcs {
+		for _, er := range fc.errs {
+			res.Errors = append(res.Errors, fc.key+": "+er)
+		}
+		for a := range fc.abstractions {
+			res.Abstract = append(res.Abstract, a)
+		}
+		for _, o := range fc.obls {
+			jobs = append(jobs, &job{fc: fc, o: o, script: fc.Query(o, true)})
+		}
+		// vacuity: the context with every fact must not refute each obligation's path
+		seenPath := map[string]bool{}
+		for _, o := range fc.obls {
+			if o.Kind == "lemma" || seenPath[o.Path] {
+				continue
+			}
+			seenPath[o.Path] = true
+			co := &Obl{Func: o.Func, Kind: "cover", Label: o.Kind + ":" + o.Label, Site: o.Site, NFacts: o.NFacts, Path: o.Path, Goal: "true"}
+			covers = append(covers, &job{fc: fc, o: co, script: fc.Query(co, false)})
+		}
+	}
+	var fns []func()
+	for _, j := range jobs {
+		j := j
+		fns = append(fns, func() { j.v = Discharge(j.o, j.script, work, timeoutFor(j.o), all) })
+	}
+	for _, j := range covers {
+		j := j
+		fns = append(fns, func() {
+			// a cover is vacuous only if a solver answers unsat; sat/unknown/timeout are all fine
+			cls, _, secs := runSolver(solvers[0], writeTmp(work, j.o, j.script), 3)
+			j.v = &Verdict{Obl: j.o, Class: cls, Secs: secs}
+		})
+	}
+	pool(16, fns)
+	byName := map[string]*oblResult{}
+	var order []string
+	for _, j := range jobs {
+		n := j.o.Name()
+		r := byName[n]
+		if r == nil {
+			r = &oblResult{Name: n, Text: j.o.Text, fc: j.fc}
+			byName[n] = r
+			order = append(order, n)
+		}
+		r.Sites++
+		r.Secs += j.v.Secs
+		res.SolverSecs += j.v.Secs
+		res.Queries++
+		if j.v.Status == "proved" {
+			r.Proved++
+			found := false
+			for _, s := range r.Solvers {
+				if s == j.v.Solver {
+					found = true
+				}
+			}
+			if !found {
+				r.Solvers = append(r.Solvers, j.v.Solver)
+			}
+		} else {
+			r.Class = j.v.Class
+		}
+		r.verdicts = append(r.verdicts, j.v)
+	}
+	for _, n := range order {
+		r := byName[n]
+		if r.Proved == r.Sites {
+			r.Status = "proved"
+		} else {
+			r.Status = "failed"
+		}
+		res.Obls = append(res.Obls, r)
+	}
+	for _, j := range covers {
+		res.Covers++
+		res.SolverSecs += j.v.Secs
+		if j.v.Class == "unsat" {
+			res.Vacuous = append(res.Vacuous, fmt.Sprintf("%s path of %s@%s is unreachable under the assumed facts (contradictory requires/invariant/axiom?)", j.o.Func, j.o.Label, j.o.Site))
+		}
+	}
+	sort.Strings(res.Abstract)
+	res.Abstract = uniq(res.Abstract)
+	for n := range e.Notes {
+		res.Abstract = append(res.Abstract, n)
+	}
+	// expected obligations (fail closed if the generator produced fewer labelled obligations than it is known to need)
+	for n := range exp[prop] {
+		if byName[n] == nil {
+			res.Missing = append(res.Missing, n)
+		}
+	}
+	sort.Strings(res.Missing)
+	if verbose {
+		for _, r := range res.Obls {
+			if r.Status != "proved" {
+				fmt.Printf("  FAILED %s (%d/%d sites, %s)\n", r.Name, r.Proved, r.Sites, r.Class)
+			}
+		}
+	}
+	return res
+}
+
+func maxInt(a, b int) int {
+	if a > b {
+		return a
+	}
+	return b
+}
+
+func uniq(s []string) []string {
+	var out []string
+	for i, x := range s {
+		if i == 0 || x != s[i-1] {
+			out = append(out, x)
+		}
+	}
+	return out
+}
+
+func writeTmp(dir string, o *Obl, script string) string {
+	name := mangle(o.Name() + "@" + o.Site)
+	if len(name) > 150 {
+		name = name[:150]
+	}
+	f := filepath.Join(dir, fmt.Sprintf("%s_%x.smt2", name, hashString(script)))
+	os.WriteFile(f, []byte(script), 0o644)
+	return f
+}
+
+func (res *PropResult) report(verif, prop string, cfg *PropCfg, tier string, writeEvidence bool) int {
+	var findings []KnownFinding
+	loadJSON(filepath.Join(verif, "known_findings.json"), &findings)
+	byName := map[string]*oblResult{}
+	for _, r := range res.Obls {
+		byName[r.Name] = r
+	}
+	violations := 0
+	var lines []string
+	replayDir := filepath.Join(verif, "replays")
+	os.MkdirAll(replayDir, 0o755)
+	broken := func(what string) {
+		// the check itself cannot run: report as a violation of the binding obligation (fails closed)
+		violations++
+		path := filepath.Join(replayDir, fmt.Sprintf("%s-binding.json", prop))
+		writeJSON(path, map[string]interface{}{"property": prop, "obligation": "binding", "reason": what})
+		lines = append(lines, fmt.Sprintf("VIOLATION property=%s replay=%s obligation=binding (%s) no-failing-input-found", prop, path, what))
+	}
+	if res.LoadErr != "" {
+		broken(res.LoadErr)
+	}
+	for _, e := range res.Errors {
+		broken(e)
+	}
+	for _, v := range res.Vacuous {
+		broken("vacuity: " + v)
+	}
+	for _, m := range res.Missing {
+		broken("expected obligation was not generated: " + m)
+	}
+	if len(res.Obls) == 0 && res.LoadErr == "" {
+		broken("no obligations generated")
+	}
+	discharged := 0
+	var knownOpen []string
+	for _, r := range res.Obls {
+		if strings.Contains(r.Name, "#asis:") {
+			continue
+		}
+		if r.Status == "proved" {
+			discharged++
+			continue
+		}
+		// failed: known finding?
+		handled := false
+		for _, f := range findings {
+			if f.Property == prop && f.Obligation == r.Name && f.Status == "open" {
+				pin := byName[f.Pin]
+				if f.Pin == "" || (pin != nil && pin.Status == "proved") {
+					lines = append(lines, fmt.Sprintf("KNOWN-FINDING: property=%s %s [%s]", prop, f.What, r.Name))
+					knownOpen = append(knownOpen, r.Name)
+					handled = true
+				}
+			}
+		}
+		if handled {
+			continue
+		}
+		violations++
+		path, found := writeReplay(verif, prop, r)
+		suffix := ""
+		if !found {
+			suffix = " no-failing-input-found"
+		}
+		lines = append(lines, fmt.Sprintf("VIOLATION property=%s replay=%s obligation=%s class=%s%s", prop, path, r.Name, r.Class, suffix))
+	}
+	nObl := 0
+	for _, r := range res.Obls {
+		if !strings.Contains(r.Name, "#asis:") {
+			nObl++
+		}
+	}
+	for _, l := range lines {
+		fmt.Println(l)
+	}
+	fmt.Printf("property %s tier %s: %d obligations (%d queries), %d discharged, %d violations, %d known findings, solver %.1fs, wall %.1fs\n",
+		prop, tier, nObl, res.Queries, discharged, violations, len(knownOpen), res.SolverSecs, res.WallS)
+	if writeEvidence {
+		res.writeEvidence(verif, prop, cfg, tier, nObl, discharged, violations, knownOpen)
+	}
+	if violations > 0 {
+		return 1
+	}
+	return 0
+}
+
+func writeJSON(path string, v interface{}) {
+	data, _ := json.MarshalIndent(v, "", " ")
+	os.WriteFile(path, append(data, '\n'), 0o644)
+}
+
+func (res *PropResult) writeEvidence(verif, prop string, cfg *PropCfg, tier string, nObl, discharged, violations int, knownOpen []string) {
+	var samples []interface{}
+	solverCount := map[string]int{}
+	var perObl []interface{}
+	for _, r := range res.Obls {
+		for _, s := range r.Solvers {
+			solverCount[s]++
+		}
+		perObl = append(perObl, map[string]interface{}{"name": r.Name, "status": r.Status, "sites": r.Sites, "solvers": r.Solvers, "secs": round3(r.Secs)})
+		if len(samples) < 6 && r.Text != "" && len(r.verdicts) > 0 {
+			samples = append(samples, map[string]interface{}{"obligation": r.Name, "clause": r.Text, "status": r.Status, "smt_sha256_8": r.verdicts[0].Hash, "solver": r.verdicts[0].Solver})
+		}
+	}
+	trusted := []string{
+		"go/packages + go/types + go/ssa (x/tools v0.29.0) build the SSA the compiler runs",
+		"govc SSA->SMT translator (/verif/govc)",
+		"SMT solvers z3 5.1.0, cvc5 1.0.3, z3 4.8.12 (first unsat wins; thorough tier: all must agree)",
+		"sequence / map / string prelude axioms (/verif/govc/cmd/govc/sorts.go)",
+	}
+	for _, t := range res.Trusted {
+		trusted = append(trusted, "assumed contract (extern stub): "+t)
+	}
+	for _, a := range res.Axioms {
+		trusted = append(trusted, "axiom: "+a)
+	}
+	trusted = append(trusted, cfg.Trusted...)
+	assumptions := append([]string{}, cfg.Assumptions...)
+	assumptions = append(assumptions,
+		"sequential semantics per function: no interleavings are explored; locks are no-ops; sync/atomic operations are single steps",
+		"64-bit integer arithmetic treated as mathematical (no overflow); <=32-bit arithmetic and all conversions wrap exactly",
+		"run-time panics (nil dereference, index out of range, failed type assertion) are assumed away except in functions marked panics-never",
+		"slices are values: backing-array aliasing and capacity are not modelled; strings are byte sequences")
+	for _, a := range res.Abstract {
+		assumptions = append(assumptions, "abstraction: "+a)
+	}
+	for _, r := range cfg.Residual {
+		assumptions = append(assumptions, "not decided (residual): "+r)
+	}
+	ev := map[string]interface{}{
+		"property_id": prop,
+		"tier":        tier,
+		"seed":        res.Seed,
+		"level":       "proof",
+		"coverage": map[string]interface{}{
+			"obligations":              nObl,
+			"discharged":               discharged,
+			"checker_cmd":              fmt.Sprintf("bin/govc check --property %s --tier %s", prop, tier),
+			"trusted_base":             trusted,
+			"functions_under_contract": res.Funcs,
+			"queries":                  res.Queries,
+			"cover_queries":            res.Covers,
+			"backends":                 solverCount,
+			"solver_time_s":            round3(res.SolverSecs),
+			"per_obligation":           perObl,
+			"samples":                  samples,
+			"known_findings_open":      knownOpen,
+			"bounded":                  cfg.Bounded,
+		},
+		"assumptions": assumptions,
+		"wall_s":      round3(res.WallS),
+		"violations":  violations,
+	}
+	os.MkdirAll(filepath.Join(verif, "evidence"), 0o755)
+	writeJSON(filepath.Join(verif, "evidence", prop+".json"), ev)
+}
+
+func round3(f float64) float64 { return float64(int(f*1000+0.5)) / 1000 }
+
+// writeReplay writes the replay file of a failed obligation; found reports whether a concrete failing input is included.
+func writeReplay(verif, prop string, r *oblResult) (string, bool) {
+	path := filepath.Join(verif, "replays", fmt.Sprintf("%s-%s.json", prop, mangle(r.Name)))
+	var sites []interface{}
+	for _, v := range r.verdicts {
+		if v.Status == "proved" {
+			continue
+		}
+		out := v.Output
+		if len(out) > 2000 {
+			out = out[:2000]
+		}
+		sites = append(sites, map[string]interface{}{"site": v.Obl.Site, "class": v.Class, "solver": v.Solver, "smt_file": v.File, "solver_output": out, "model": truncate(v.Model, 6000)})
+	}
+	rep := map[string]interface{}{"property": prop, "obligation": r.Name, "clause": r.Text, "failed_sites": sites, "input_found": false}
+	found := tryCounterexample(verif, prop, r, rep)
+	rep["input_found"] = found
+	writeJSON(path, rep)
+	return path, found
+}
+
+func truncate(s string, n int) string {
+	if len(s) > n {
+		return s[:n]
+	}
+	return s
+}
+
+func cmdReplay(args []string) int {
+	if len(args) < 1 {
+		fmt.Println("usage: govc replay <replay.json>")
+		return 2
+	}
+	return replayFile(args[0])
+}
+
+func cmdSelftest(args []string) int { return selftest(args) }
